@@ -25,6 +25,12 @@ MUTS = {
  "steal-partial-mem": ("src/chunk.c", "chunkqueue_append_mem(dest, c->mem->ptr + c->offset, len);\n\t\t\t\tbreak;", "chunkqueue_append_mem(dest, c->mem->ptr, len);\n\t\t\t\tbreak;", ["C17"]),
  "h2-swin-conn": ("src/h2.c", "    r->x.h2.swin   -= (int32_t)sent;\n    h2r->x.h2.swin -= (int32_t)sent;", "    r->x.h2.swin   -= (int32_t)sent;", ["C06", "C05"]),
  "lim-conns": ("src/connections.c", "    ++srv->lim_conns;", "    if (srv->lim_conns < srv->srvconf.max_conns - 1) ++srv->lim_conns;", ["C13"]),
+ "no-length-zero": ("src/response.c", "                http_header_response_set(r, HTTP_HEADER_CONTENT_LENGTH,\n                                         CONST_STR_LEN(\"Content-Length\"),\n                                         CONST_STR_LEN(\"0\"));",
+                    "                (void)0;", ["C04"]),
+ "deflate-cache-no-etag": ("src/mod_deflate.c", "    buffer_append_str2(tb, CONST_STR_LEN(\"-\"), /*(strip surrounding '\"')*/\n                           etag->ptr+1, buffer_clen(etag)-2);\n    return tb;",
+                           "    buffer_append_str2(tb, CONST_STR_LEN(\"-\"), /*(strip surrounding '\"')*/\n                           etag->ptr+1, 1);\n    return tb;", ["C19"]),
+ "auth-cache-age": ("src/mod_auth.c", "    if (cur_ts - ae->ctime > max_age)\n        keys[(*ndx)++] = t->key;", "    if (cur_ts - ae->ctime > max_age * 100)\n        keys[(*ndx)++] = t->key;", ["C16"]),
+ "kv-url-query": ("src/keyvalue.c", "                    burl_append(b, BUF_PTR_LEN(burl->query), flags);\n                p+=5;", "                    burl_append(b, BUF_PTR_LEN(burl->path), flags);\n                p+=5;", ["C20"]),
  "else-link": ("src/configparser.y", "    C->prev = B;\n    B->next = C;\n    A = C;", "    C->prev = B;\n    A = C;", ["C14"]),
 }
 
